@@ -96,22 +96,26 @@ Proof. intros Fm H. apply never_stale_now; [exact Fm | now apply MaskDisciplined
 
 End NowProofs.
 
-(** ** concrete histories on the executable instance *)
+(** ** concrete histories on the executable instance
+
+    The partial revert of the code as it is (since commit fe0cadd) selects, [torch.where(mask, old, cur)]: the
+    executable instance is [xsem_where].  ([xsem], the blend [old * mask + cur * ~mask] of the code before, gives the
+    same results on finite values; it differs when the discarded side is inf / NaN — see [nonfinite_now].) *)
 
 Lemma mask_disciplined_b_sound (g : graph xval) (sm : sem xval (list bool) nat) ops s :
   disciplined_b g sm true false s ops = true -> MaskDisciplined g sm s ops.
 Proof. intros H. apply MaskDisciplined_iff. now apply disciplined_b_sound. Qed.
 
-Definition outs_of (g : graph xval) (ops : list xop) : list (out xval) := snd (run_now g xsem (init_store g) ops).
+Definition outs_of (g : graph xval) (ops : list xop) : list (out xval) := snd (run_now g xsem_where (init_store g) ops).
 
 (** The history of the former finding F1 (c = a + b; fork REF; a=1, b=10; read c; a=2; auto_fork_type=None; b=20;
     revert(); read c) on the code as it is: it meets the precondition, the un-forked assignment of [b] drops the fork
     of [a], the revert is refused (input error) and the read is the fresh value 2 + 20. *)
 Example f1_now :
-  MaskDisciplined (mk_graph f1_nodes) xsem (init_store (mk_graph f1_nodes)) f1_ops /\
+  MaskDisciplined (mk_graph f1_nodes) xsem_where (init_store (mk_graph f1_nodes)) f1_ops /\
   nth_error (outs_of (mk_graph f1_nodes) f1_ops) 7 = Some (Err InputError) /\
-  read_of (mk_graph f1_nodes) xsem true f1_ops 0 2 = Ok (XS (AFin 22)) /\
-  fresh_of (mk_graph f1_nodes) xsem true f1_ops 0 2 = Some (Some (XS (AFin 22))).
+  read_of (mk_graph f1_nodes) xsem_where true f1_ops 0 2 = Ok (XS (AFin 22)) /\
+  fresh_of (mk_graph f1_nodes) xsem_where true f1_ops 0 2 = Some (Some (XS (AFin 22))).
 Proof. split; [apply mask_disciplined_b_sound; vm_compute; reflexivity|]. vm_compute. repeat split. Qed.
 
 (** Non-vacuity of the precondition: a 19-operation history on the diamond with forked assignments, reads, a partial
@@ -125,11 +129,40 @@ Definition now_ops : list xop :=
     Clone 0 false true; SetMode 1 (Some COPY); Put 1 0 None (XP [AFin 1; AFin 1]) true ].
 
 Example now_disciplined :
-  MaskDisciplined (mk_graph diamond_nodes) xsem (init_store (mk_graph diamond_nodes)) (now_ops ++ [Get 1 3; Revert 1]) /\
+  MaskDisciplined (mk_graph diamond_nodes) xsem_where (init_store (mk_graph diamond_nodes)) (now_ops ++ [Get 1 3; Revert 1]) /\
   nth_error (outs_of (mk_graph diamond_nodes) now_ops) 6 = Some Done /\
   nth_error (outs_of (mk_graph diamond_nodes) now_ops) 13 = Some (Err InputError) /\
   nth_error (outs_of (mk_graph diamond_nodes) now_ops) 14 = Some (Err InputError) /\
-  read_of (mk_graph diamond_nodes) xsem true now_ops 0 3 = Ok (XS (AFin 213)) /\
-  fresh_of (mk_graph diamond_nodes) xsem true now_ops 0 3 = Some (Some (XS (AFin 213))) /\
-  read_of (mk_graph diamond_nodes) xsem true (now_ops ++ [Get 1 3; Revert 1]) 1 3 = Ok (XS (AFin 213)).
+  read_of (mk_graph diamond_nodes) xsem_where true now_ops 0 3 = Ok (XS (AFin 213)) /\
+  fresh_of (mk_graph diamond_nodes) xsem_where true now_ops 0 3 = Some (Some (XS (AFin 213))) /\
+  read_of (mk_graph diamond_nodes) xsem_where true (now_ops ++ [Get 1 3; Revert 1]) 1 3 = Ok (XS (AFin 213)).
 Proof. split; [apply mask_disciplined_b_sound; vm_compute; reflexivity|]. vm_compute. repeat split. Qed.
+
+(** A per-individual revert whose discarded side is not finite:  y = log2 x per individual; x = [1, 2]; read y;
+    x += [-2, 2] (x = [-1, 4], y = [NaN, 2]); read y; reject individual 0.  The selection keeps y = [0, 2], the fresh
+    value of x = [1, 4].  (With the blend of the code before fe0cadd the cached y was [NaN, 2]: NaN * 0 = NaN.) *)
+Definition nf_nodes : list nspec :=
+  [ mkN false true None true [] [] [1] NLog2;
+    mkN true false None true [0] [0] [] NLog2 ].
+
+Definition nf_ops : list xop :=
+  [ SetMode 0 (Some REF); Set_ 0 0 (Some (XP [AFin 1; AFin 2])); Get 0 1;
+    Put 0 0 None (XP [AFin (-2); AFin 2]) true; Get 0 1; RevertMask 0 [true; false] ]%Z.
+
+Lemma nf_wf : WF (mk_graph nf_nodes).
+Proof. apply wf_b_sound. vm_compute. reflexivity. Qed.
+
+Example nonfinite_now :
+  WF (mk_graph nf_nodes) /\
+  MaskDisciplined (mk_graph nf_nodes) xsem_where (init_store (mk_graph nf_nodes)) nf_ops /\
+  nth_error (outs_of (mk_graph nf_nodes) nf_ops) 4 = Some (Ok (XP [ANaN; AFin 2])) /\
+  nth_error (outs_of (mk_graph nf_nodes) nf_ops) 5 = Some Done /\
+  read_of (mk_graph nf_nodes) xsem_where true nf_ops 0 1 = Ok (XP [AFin 0; AFin 2]) /\
+  fresh_of (mk_graph nf_nodes) xsem_where true nf_ops 0 1 = Some (Some (XP [AFin 0; AFin 2])).
+Proof. split; [exact nf_wf|]. split; [apply mask_disciplined_b_sound; vm_compute; reflexivity|]. vm_compute. repeat split. Qed.
+
+(** the two partial-revert rules differ on this history, and only the selection is fresh *)
+Example nonfinite_blend_differs :
+  read_of (mk_graph nf_nodes) xsem true nf_ops 0 1 = Ok (XP [ANaN; AFin 2]) /\
+  fresh_of (mk_graph nf_nodes) xsem true nf_ops 0 1 = Some (Some (XP [AFin 0; AFin 2])).
+Proof. vm_compute. split; reflexivity. Qed.
